@@ -70,8 +70,15 @@ def _collect_scopes_from_layers(
     return collected
 
 
-def scopes_for_owner(owner: NixExpression) -> tuple[Scope, ...]:
-    """Build a scope chain from an owner expression and inherited context (internal helper, not a stable public API)."""
+def scopes_for_owner(
+    owner: NixExpression, *, strict: bool = True
+) -> tuple[Scope, ...]:
+    """Build a scope chain from an owner expression and inherited context (internal helper, not a stable public API).
+
+    With ``strict=False`` a ``with`` environment that cannot be resolved to an
+    attribute set is treated as opaque (it contributes no scope) instead of
+    raising, so callers that only locate an edit target keep the other scopes.
+    """
     inherited = _get_context(owner)
     inherited_scopes: tuple[Scope, ...] = ()
     scopes: list[Scope] = []
@@ -119,16 +126,21 @@ def scopes_for_owner(owner: NixExpression) -> tuple[Scope, ...]:
             context_scopes = tuple(scopes) if scopes else inherited_scopes
             if context_scopes:
                 set_resolution_context(environment, context_scopes)
-                resolved_env = environment.value
+                try:
+                    resolved_env = environment.value
+                except ResolutionError:
+                    if strict:
+                        raise
+                    resolved_env = None
                 if isinstance(resolved_env, AttributeSet):
                     env_scope = _scope_from_attrset(resolved_env, base=tuple(scopes))
-                else:
+                elif strict:
                     raise ResolutionError(
                         "with environment must resolve to an attribute set"
                     )
         elif isinstance(environment, Scope):
             env_scope = environment
-        else:
+        elif strict:
             raise ResolutionError("with environment must resolve to an attribute set")
         if env_scope is not None:
             weak_scope = Scope(env_scope, owner=env_scope.owner)
